@@ -117,9 +117,12 @@ def expected(events, cfg=None):
         elif k == "add_test":
             if shown("add_test"):
                 args = ev.get("args", ["NAME", nm, "COMMAND", "prog_%d" % i, "--flag"])
-                p = args.index("NAME")
-                name = args[p + 1]
-                rest = args[:p] + args[p + 2:]
+                if "NAME" in args:
+                    p = args.index("NAME")
+                    name = args[p + 1]
+                    rest = args[:p] + args[p + 2:]
+                else:       # add_test(<name> <command> [<arg>...]): an entry without a name that shows the arguments
+                    name, rest = "", list(args)
                 entries.append({"kind": "ctest", "name": name, "sig": f"{name}({' '.join(rest)})", "doc": dl, "src": i,
                                 "args_list": list(rest)})
         elif k == "option":
@@ -137,7 +140,10 @@ def expected(events, cfg=None):
                 cmd = ev.get("cmd", "message")
                 args = ev.get("args", ["STATUS", '"text %d"' % i])
                 entries.append({"kind": "generic", "name": cmd, "sig": f"{cmd.lower()}({flat_args(args)})",
-                                "doc": dl, "src": i})
+                                "doc": dl, "src": i,
+                                # argument by argument (only without parenthesised arguments, which the observer's
+                                # splitter does not group)
+                                "args_flat": list(args) if all(isinstance(a, str) and "(" not in a and ")" not in a for a in args) else None})
         elif k == "cmake_parse_arguments":
             for b in reversed(stack):
                 if b["kind"] in DEF_KINDS:
@@ -191,6 +197,10 @@ def compare(exp, obs, check_doc=True):
             got = rstobs.split_sig(o["rawsig"])[1]
             if got is not None and got != e["args_list"]:
                 msgs.append(f"signature: {where} arguments as written {e['args_list']!r}, shown {got!r}")
+        elif e["kind"] == "generic" and "rawsig" in o and e.get("args_flat") is not None:
+            got = rstobs.split_sig(o["rawsig"])[1]
+            if got is not None and got != e["args_flat"]:
+                msgs.append(f"signature: {where} arguments as written {e['args_flat']!r}, shown {got!r}")
         elif e["kind"] in DEF_KINDS and "rawsig" in o:
             # parameter by parameter: whitespace inside a quoted or bracket parameter belongs to the parameter
             want = [p for p in list(e["params"]) + (["**kwargs"] if e["kwargs"] else []) if p != ""]
